@@ -39,12 +39,52 @@ def pos(x):
     return [x.LineNumber, x.StartPosition]
 
 
-def collect(m, inst):
-    smts = list(m.select_many('ACT_SMT'))
+BODY = {'S_SYNC': ('ACT_FNB', 695), 'S_BRG': ('ACT_BRB', 697), 'O_TFR': ('ACT_OPB', 696), 'O_DBATTR': ('ACT_DAB', 693),
+        'SPR_RO': ('ACT_ROB', 685), 'SPR_RS': ('ACT_RSB', 684), 'SPR_PO': ('ACT_POB', 687), 'SPR_PS': ('ACT_PSB', 686)}
+
+
+def action_of(m, inst):
+    """the ACT_ACT instance of the action home inst"""
+    kind = xtuml.get_metaclass(inst).kind
+    if kind == 'SM_ACT':
+        return one(inst).ACT_SAB[691].ACT_ACT[698]() or one(inst).ACT_TAB[688].ACT_ACT[698]()
+    sub, rel = BODY[kind]
+    return one(inst).nav(sub, 'R%d' % rel, '').ACT_ACT[698]()
+
+
+def collect(m, inst, own_only=False):
+    """own_only: the whole model was prebuilt; only what belongs to the action of inst is read (statements, values and
+    variables by their block, parameters by their value, navigation steps by their statement) - and everything that
+    belongs to it must be there, whatever the other actions of the model left behind"""
+    select = m.select_many
+    if own_only:
+        act = action_of(m, inst)
+        blocks = set(b.Block_ID for b in many(act).ACT_BLK[601]())
+        own_vals = set(v.Value_ID for v in m.select_many('V_VAL') if v.Block_ID in blocks)
+        own_smts = set(x.Statement_ID for x in m.select_many('ACT_SMT') if x.Block_ID in blocks)
+
+        def select(kind):
+            xs = m.select_many(kind)
+            if kind in ('ACT_SMT', 'V_VAL', 'V_VAR', 'ACT_BLK'):
+                return [x for x in xs if x.Block_ID in blocks]
+            if kind == 'V_PAR':
+                return [x for x in xs if x.Value_ID in own_vals]
+            if kind == 'ACT_LNK':
+                # (only the first step of a chain names its statement: the steps are those reachable from the own selections)
+                by_id = {x.Link_ID: x for x in xs}
+                out = []
+                for x in xs:
+                    if x.Statement_ID in own_smts:
+                        while x is not None and x not in out:
+                            out.append(x)
+                            x = by_id.get(x.Next_Link_ID) if x.Next_Link_ID else None
+                return out
+            return xs
+    smts = list(select('ACT_SMT'))
     by_id = {s.Statement_ID: s for s in smts}
     real = lambda s: not (one(s).ACT_EL[603]() or one(s).ACT_E[603]())
     first_of_block = {}
-    for blk in m.select_many('ACT_BLK'):
+    for blk in select('ACT_BLK'):
         members = [s for s in many(blk).ACT_SMT[602]() if real(s)]
         if members:
             f = min(members, key=lambda s: (s.LineNumber, s.StartPosition))
@@ -67,7 +107,7 @@ def collect(m, inst):
         links = []
         if st and st[0] == 'ACT_SEL':
             # the navigation steps, from the one the statement designates along the persisted Next_Link_ID
-            by_link = {x.Link_ID: x for x in m.select_many('ACT_LNK')}
+            by_link = {x.Link_ID: x for x in select('ACT_LNK')}
             lnk = one(one(s).ACT_SEL[603]()).ACT_LNK[637]()
             while lnk is not None and len(links) < 50:
                 o, r = one(lnk).O_OBJ[678](), one(lnk).R_REL[681]()
@@ -82,7 +122,7 @@ def collect(m, inst):
         stmts.append({'k': kind, 'tag': tag, 'links': links, 'line': s.LineNumber, 'sc': s.StartPosition, 'ec': s.EndPosition,
                       'prev': pos(prev) if prev is not None else [], 'first': first_of_block.get(blk.Block_ID, []) if blk else []})
     vals = []
-    for v in m.select_many('V_VAL'):
+    for v in select('V_VAL'):
         st = subtypes(v, 'R801')
         subs.append(len(st))
         dt = one(v).S_DT[820]()
@@ -97,14 +137,14 @@ def collect(m, inst):
             rawkw.append([raw, lit])
         vals.append({'line': v.LineNumber, 'sc': v.StartPosition, 'ec': v.EndPosition, 'ty': dt.Name if dt else '', 'lit': lit})
     vars_ = []
-    for v in m.select_many('V_VAR'):
+    for v in select('V_VAR'):
         dt = one(v).S_DT[848]()
         blk = one(v).ACT_BLK[823]()
         vars_.append({'n': v.Name, 'ty': dt.Name if dt else '', 'first': first_of_block.get(blk.Block_ID, []) if blk else []})
-    by_val = {p.Value_ID: p for p in m.select_many('V_PAR')}
+    by_val = {p.Value_ID: p for p in select('V_PAR')}
     pairs = []
-    for p in m.select_many('V_PAR'):
+    for p in select('V_PAR'):
         nxt = by_val.get(p.Next_Value_ID) if p.Next_Value_ID else None
         pairs.append([p.Name, nxt.Name if nxt is not None else ''])
     return {'stmts': stmts, 'vals': vals, 'vars': vars_, 'ppairs': pairs, 'subtype_counts': subs, 'rawkw': rawkw,
-            'nlinks': len(list(m.select_many('ACT_LNK')))}
+            'nlinks': len(list(select('ACT_LNK')))}
